@@ -264,6 +264,9 @@ func (mgr *GCMgr) gc(bkt *Bucket, startChunkID, endChunkID int, merge bool) {
 		}
 		oldPos.ChunkID = gc.Src
 		var fileState GCFileState
+		// a file that has just been rotated away may still wait for the flush goroutine spawned at rotation:
+		// GC reads the file, so everything acknowledged must be in it first
+		bkt.datas.flush(gc.Src, true)
 		// reader must have a larger buffer
 		logger.Infof("begin GC bucket %d, file %d -> %d", bkt.ID, gc.Src, gc.Dst)
 		verifhook.Point("gc.src.begin", bkt.ID, gc.Src, gc.Dst)
